@@ -469,6 +469,12 @@ func init() {
 				mixStores(cfg, r, 0.6)
 				cfg.PJoinerBadger = 0.7
 				cfg.PReFF = 0.08
+				if r.Bool(0.6) {
+					// stretches without a quorum: validators pile up events inside one
+					// round, the roots of later frames then hold no witness at all
+					cfg.Quorumless = true
+					cfg.PSilence = 0.07
+				}
 			}
 			return cfg
 		},
